@@ -408,6 +408,36 @@ static void do_fpbend(const J& g, W& w) {
     free_polys(out);
 }
 
+// a corner at a non-right angle: the outline itself, on the lattice of 1/6 unit (inner corners sit at
+// hw * tan(turn / 2) = 5/2, 5/3, ... from the vertex) (MC_C07Corner)
+static void do_fpcorner(const J& g, W& w) {
+    const J& sj = g["spine"];
+    std::vector<Vec2> sp;
+    for (size_t i = 0; i < sj.size(); i++) sp.push_back(Vec2{(double)sj[i][(size_t)0].i(), (double)sj[i][(size_t)1].i()});
+    double width = 2.0 * (double)g["hw"].i(), off = 0;
+    Tag t = 0;
+    FlexPath f = {};
+    f.init(sp[0], 1, &width, &off, 0.01, &t);
+    for (size_t k = 1; k < sp.size(); k++) f.segment(sp[k], NULL, NULL, false);
+    const std::string& j = g["join"].s();
+    f.elements[0].join_type = j == "miter" ? JoinType::Miter : j == "bevel" ? JoinType::Bevel : JoinType::Natural;
+    f.elements[0].end_type = EndType::Flush;
+    Array<Polygon*> out = {};
+    ErrorCode e = f.to_polygons(false, 0, out);
+    bool ok = true;
+    w.key("res").begin_arr();
+    for (uint64_t i = 0; i < out.count; i++) {
+        w.begin_arr();
+        for (uint64_t k = 0; k < out[i]->point_array.count; k++)
+            w.begin_arr().i(lat(out[i]->point_array[k].x, 6, ok)).i(lat(out[i]->point_array[k].y, 6, ok)).end_arr();
+        w.end_arr();
+    }
+    w.end_arr();
+    w.kb("lat", ok).kv("err", (int64_t)e);
+    free_polys(out);
+    f.clear();
+}
+
 // ------------------------------------------------------------------ RobustPath
 static Interpolation mk_ip(const J& ip, double prev_unused) {
     (void)prev_unused;
@@ -785,6 +815,7 @@ int main(int argc, char** argv) {
         if (k == "fpbook") do_fpbook(g, w);
         else if (k == "fpregion") do_fpregion(g, w);
         else if (k == "fpbend") do_fpbend(g, w);
+        else if (k == "fpcorner") do_fpcorner(g, w);
         else if (k == "rpbook") do_rpbook(g, w);
         else if (k == "rpxform") do_rpxform(g, w);
         else if (k == "rpcmd") do_rpcmd(g, w);
